@@ -91,7 +91,7 @@ def run():
     n, dis = fl if fl else (0, [])
     chk.corr("function-level score_exceeded / StopRun.check on a (score_best, max_score) grid incl. 0, -0.0, inf, nan", n, dis,
              {("fn", "grid")}, [dict(grid="13 x 13 values incl. 0, 0.0, -0.0, +-1e-9, +-inf, nan, numpy floats")])
-    specs = scenarios(r, 150 if quick else 1500)
+    specs = scenarios(r, C.T(150, 1500))
     fails = D.run_specs(chk, "driver-level stop step under max_score vs search.py/_stop_run.py", specs, monitor)
     chk.monitor("C12 statement on the real runs (scripted score sequences, thresholds incl. 0 / -0.0 / negative)", len(specs), fails)
     scen.shutdown_manager()
